@@ -96,7 +96,8 @@ def block_ops(r):
 def pipe0_ops(r):
     """pipe 0 is shared between reading and ACK reception: histories over the calls that move its address"""
     def addr():
-        return bytes(r.choice([0x11, 0x22, 0xC3]) for _ in range(5))
+        a = bytes(r.choice([0x11, 0x22, 0xC3]) for _ in range(5))
+        return bytearray(a) if r.random() < 0.5 else a     # (the harness overwrites bytearrays after the call)
     out = []
     for _ in range(r.randrange(1, 6)):
         out.append(r.choice([("open_rx_pipe", 0, addr()), ("open_tx_pipe", addr()), ("open_tx_pipe", addr()),
